@@ -26,7 +26,8 @@ Begin ==
 Step ==
   /\ l <= Len(Trace)
   /\ LET e == Trace[l] IN
-     CASE e.ev = "create"    -> F!Create(e.path, e.mode)
+     CASE e.ev = "create"    -> F!Create(e.path, e.mode, e.fresh = "t")
+       [] e.ev = "truncate"  -> F!Truncate(e.path)
        [] e.ev = "write"     -> F!Write(e.path, e.bytes)
        [] e.ev = "chmod"     -> F!Chmod(e.path, e.mode)
        [] e.ev = "fsync"     -> F!Fsync(e.path)
